@@ -947,7 +947,7 @@ class Interp:
             return self.call_lambda(fid, e, env)
         if fid in self.F.by_fid:
             return self.call_repo(self.F.by_fid[fid], e, env)
-        if "obj" not in e and nm in ("sqrt", "abs", "fabs", "floor", "isfinite", "max", "min"):
+        if "obj" not in e and nm in ("sqrt", "abs", "fabs", "floor", "isfinite", "max", "min", "exp", "log", "expm1", "log1p", "pow", "copysign"):
             return self.std_call(e, env, c)
         if "obj" in e and op in ("+", "-") and "__normal_iterator" in str(c.get("cls", "")):
             it = self.ev(e["obj"], env)
@@ -1563,6 +1563,21 @@ class Interp:
                 return self.evl(args[0], env)
             if nm == "sqrt":
                 return sp.sqrt(self.ev(args[0], env))
+            if nm in ("exp", "log", "expm1", "log1p"):
+                x_ = self.ev(args[0], env)
+                if not isinstance(x_, sp.Basic):
+                    raise Unsupported("std::%s of a non-scalar" % nm)
+                return {"exp": sp.exp(x_), "log": sp.log(x_), "expm1": sp.exp(x_) - 1, "log1p": sp.log(1 + x_)}[nm]
+            if nm == "pow" and len(args) == 2:
+                x_, y_ = self.ev(args[0], env), self.ev(args[1], env)
+                if isinstance(x_, sp.Basic) and isinstance(y_, sp.Basic):
+                    return sp.Pow(x_, y_)
+                raise Unsupported("std::pow of non-scalars")
+            if nm == "copysign" and len(args) == 2:
+                x_, y_ = self.ev(args[0], env), self.ev(args[1], env)
+                if isinstance(x_, sp.Basic) and isinstance(y_, sp.Basic):
+                    return sp.Abs(x_) * sp.Function("sgn")(y_)
+                raise Unsupported("std::copysign of non-scalars")
             if nm in ("abs", "fabs"):
                 return sp.Abs(self.ev(args[0], env))
             if nm == "floor":
